@@ -106,9 +106,20 @@ func (rl *TokenBucketRateLimiter) cleanupRoutine() {
 }
 
 // cleanup removes buckets that haven't been used for more than 1 hour
+// reclaimable reports whether b (locked by the caller) may be dropped: it has not been refilled for more than an
+// hour AND for at least max_tokens refill periods. The second condition matters for slow refill rates: a client
+// whose bucket is dropped starts over with a full burst, which is only right when its bucket would have been
+// full again anyway.
+func (rl *TokenBucketRateLimiter) reclaimable(b *bucket, now time.Time) bool {
+	idle := now.Sub(b.lastRefill)
+	if idle <= time.Hour {
+		return false
+	}
+	return idle/rl.refillRate >= time.Duration(rl.maxTokens)
+}
+
 func (rl *TokenBucketRateLimiter) cleanup() {
 	now := time.Now()
-	cutoff := now.Add(-time.Hour)
 
 	// Use sync.Map's Range method for iteration
 	rl.buckets.Range(func(key, value interface{}) bool {
@@ -116,7 +127,7 @@ func (rl *TokenBucketRateLimiter) cleanup() {
 		b := value.(*bucket)
 
 		b.mutex.Lock()
-		shouldDelete := b.lastRefill.Before(cutoff)
+		shouldDelete := rl.reclaimable(b, now)
 		b.mutex.Unlock()
 
 		if shouldDelete {
